@@ -667,6 +667,8 @@ func (w *WFlag) build() *ldmodel.FeatureFlag {
 	switch w.Form {
 	case "pre":
 		ldmodel.PreprocessFlag(&f)
+	case "repre":
+		rePreprocessFlag(&f)
 	case "builder":
 		g := buildWithBuilders(w)
 		return &g
@@ -716,6 +718,8 @@ func (w *WSegment) build() *ldmodel.Segment {
 	switch w.Form {
 	case "pre":
 		ldmodel.PreprocessSegment(&s)
+	case "repre":
+		rePreprocessSegment(&s)
 	case "builder":
 		g := buildSegmentWithBuilders(w)
 		return &g
